@@ -21,6 +21,10 @@ module Z :
 
   val mul : coq_Z -> coq_Z -> coq_Z
 
+  val pow_pos : coq_Z -> positive -> coq_Z
+
+  val pow : coq_Z -> coq_Z -> coq_Z
+
   val compare : coq_Z -> coq_Z -> comparison
 
   val leb : coq_Z -> coq_Z -> bool
